@@ -309,6 +309,7 @@ func runWire(c WireCase) core.Result {
 		for time.Now().Before(deadline) {
 			capMu.Lock()
 			fr, rest := refwire.SplitFrames(captured)
+			capLen := len(captured)
 			capMu.Unlock()
 			var got uint64
 			for i, f := range fr {
@@ -319,7 +320,8 @@ func runWire(c WireCase) core.Result {
 			if c.FailAt > 0 && len(fr) < len(exp) && exp[len(fr)].Kind == "piece" && len(rest) > 13 {
 				got += uint64(len(rest) - 13)
 			}
-			if atomic.LoadUint64(&uploaded) == got && (c.FailAt == 0 || a.BytesWritten() >= c.FailAt || len(fr) == len(exp)) {
+			drained := capLen == a.BytesWritten()
+			if drained && atomic.LoadUint64(&uploaded) == got && (c.FailAt == 0 || a.BytesWritten() >= c.FailAt || len(fr) == len(exp)) {
 				break
 			}
 			time.Sleep(200 * time.Microsecond)
